@@ -1,5 +1,6 @@
 import PycsepVerif.Proto
 import PycsepVerif.Model.Bin1d
+import PycsepVerif.Model.Bin1dCalls
 import PycsepVerif.Proofs.Bin1dTables
 import PycsepVerif.Proofs.Bin1dTablesRegions
 /-! driver ops of property C02 (1-D binning, bin-edge generators) -/
@@ -28,7 +29,22 @@ def bin1d (pd bd tol rc bins ps : String) : String :=
     else showList (fun p => s!"{bin1dCore c n edge p}:{showAllowed (allowed c bins p)}") ps
   | _, _, _, _, _ => "bad-op"
 
+/-- `c02_calls pd tol bins mags` (float64 edges) → `gmi:<E | indices>!mc:<counts>!gi:<indices>`: `get_magnitude_index(mags, tol)`
+of a forecast with these magnitude edges (mags of dtype pd), `magnitude_counts(mag_bins, tol)` and `get_mag_idx()` of a catalog
+with these (float64) magnitudes (Model/Bin1dCalls.lean) -/
+def calls (pd tol bins mags : String) : String :=
+  match parseDT? pd, parseTol? tol, parseList? parseRat? bins, parseList? parseRat? mags with
+  | some pd, some tol, some bins, some mags =>
+    if bins.length = 0 then "indexerror"
+    else
+      let gmi := match getMagnitudeIndex pd .f64 tol bins mags with
+        | .ok l => showList toString l
+        | .error _ => "E"
+      s!"gmi:{gmi}!mc:{showList toString (magnitudeCounts tol bins mags)}!gi:{showList toString (getMagIdx bins mags)}"
+  | _, _, _, _ => "bad-op"
+
 def handle : List String → Option String
+  | ["c02_calls", pd, tol, bins, mags] => some (calls pd tol bins mags)
   | ["c02_bin1d", pd, bd, tol, rc, bins, ps] => some (bin1d pd bd tol rc bins ps)
   | ["c02_cleaner", s, e, h, dec] => some (match parseRat? s, parseRat? e, parseRat? h, dec.toNat? with
       | some s, some e, some h, some dec =>
